@@ -141,10 +141,23 @@ fn run(case: &J) -> J {
                             return json!({"ok": false, "stage": "render", "err": format!("{}", e)});
                         }
                     }
-                    json!({"ok": true, "out": String::from_utf8_lossy(&buf)})
+                    let comments: Vec<String> = cm.values().flat_map(|g| g.iter().map(|t| t.fragment.to_string())).collect();
+                    json!({"ok": true, "out": String::from_utf8_lossy(&buf), "comments": comments, "debug": format!("{:?}", stmts)})
                 }
                 Err(e) => json!({"ok": false, "stage": "parse", "err": format!("{}", e)}),
             }
+        }
+        "fmt2" => {
+            // format, then format the output again (both stages reported)
+            let mut c1 = case.clone();
+            c1["kind"] = json!("fmt");
+            let mut first = run(&c1);
+            if first["ok"].as_bool() == Some(true) {
+                let c2 = json!({"kind": "fmt", "text": first["out"].clone()});
+                let second = run(&c2);
+                first["second"] = second;
+            }
+            first
         }
         _ => json!({"ok": false, "err": format!("unknown case kind {}", kind)}),
     }
